@@ -11,6 +11,7 @@ import itertools
 import re
 
 import cfg
+import evalsum
 import grammar
 import precedence
 from framework import Inconclusive
@@ -44,13 +45,46 @@ def canon_term(outcomes):
     return cfg.simplify(t)
 
 
+_helper_inline = {}
+
+
+def small_helper_term(f, name):
+    """ok-term of a parser helper that merely wraps a conversion of its text argument (no slicing), with `value`
+    standing for the argument; None for the literal helpers (they stay `lit(..)`, their conversions are C08's)"""
+    key = (getattr(f, "path", id(f)), name)
+    if key in _helper_inline:
+        return _helper_inline[key]
+    out = None
+    path = "parse::helpers::" + name
+    b = f.bodies.get(path)
+    if b and b["arg_count"] == 1:
+        try:
+            outs, _ = evalsum.summarize_fn(f, path, arg_names=["value"])
+            ok = [o for o in outs if o[1].startswith("Ok(")]
+            bad = [o for o in outs if o[1].startswith("Err(")]
+            if len(ok) == 1 and len(bad) <= 1 and len(outs) == len(ok) + len(bad) and "str::index" not in ok[0][1] and len(ok[0][1]) < 90:
+                out = ok[0][1][3:-1]
+        except Exception:
+            out = None
+    _helper_inline[key] = out
+    return out
+
+
 def extracted_grammar(f):
     g = grammar.load(f)
     P = []
     for p in g["prods"]:
         if p["lhs"].startswith("__"):
             continue
-        P.append((p["lhs"], list(p["rhs"]), canon_term(p["term"])))
+        outcomes = p["term"]
+        if outcomes:
+            # a helper that only wraps a conversion is spelled out (so `parse_vec_index(r)?` and the inline
+            # `usize::from_str(r)?` are the same action)
+            def inline(m):
+                t = small_helper_term(f, m.group(1))
+                return t.replace("value", m.group(2)) if t else m.group(0)
+            outcomes = [(c, re.sub(r"helpers::(\w+)!\((\$\d+)\)", inline, t)) for c, t in outcomes]
+        P.append((p["lhs"], list(p["rhs"]), canon_term(outcomes)))
     return g, P
 
 
@@ -143,8 +177,8 @@ def probes():
 def run(res, f, tier):
     g, Pg = extracted_grammar(f)
     Ps = precedence.productions()
-    res.floor("productions in the generated parser", len(g["productions"]), 90)
-    res.floor("terminals", len(g["terminals"]), 50)
+    res.floor("productions in the generated parser", len(g["productions"]), 70)
+    res.floor("terminals", len(g["terminals"]), 40)
     Pg = reachable(Pg, ["Expr", "Rule"])
     Ps = reachable(Ps, ["Expr", "Rule"])
     tg = set(s for _, r, _ in Pg for s in r) - cfg.nonterminals(Pg)
